@@ -83,6 +83,12 @@ CLAIMED["C14"] = dict(
    note="Mixed states through thermal preparations are not in the spec yet; dimensionless observables other than the mean photon number are compared across hbar, not against closed forms.",
    technique="exact TLA+ representation maps with explicit hbar + TLC; replay of getters / setters / reduced / rotated on GaussianState",
    engine="PqGaussian")
+CLAIMED["C18"] = dict(
+   category="model_checking", design_ref="§3 C18",
+   text="PqProgram.tla: (nest) registration maps modes through the enclosing register exactly once -- TLC checks MappedExactlyOnce (composition law) and InnerReusable for all inner programs x register chains up to depth 3; (trip) export/load pairs specified as the identity on (class, modes, parameters); (prep) Den of +, scalar *, / over number states, with AddCommutes / AddAssociates / ScalarDistributes checked on every enumerated tree (exhaustive on a 2-leaf alphabet up to 4 leaves, simulation on 4 leaves x 4 Gaussian-rational scalars). Replay: real `with Program(): Q(..) | inner` nestings (inner snapshotted, registered twice); Blackbird text, executed as_code output (program and simulator compared, incl. non-default Configs), from_dict and copy on programs over the 15 exportable gate classes with parameter values {0, +-1, 2.0, 0.5, +-1e-20, 1e20, pi/4, int, numpy float}; every exported tree built with the real operators and its effective amplitude map compared with Den.",
+   note="Matrix parameters and Blackbird files on disk are not exercised; shared leaf objects are out of scope (documented in-place __mul__).",
+   technique="TLA+ model of registration / round trips / preparation algebra + TLC; behaviours replayed through the real construction APIs",
+   engine="PqProgram")
 NOT_APPLICABLE_REASON = {}
 def main():
     checks = []
